@@ -151,6 +151,8 @@ class Prop(PropBase):
             "amaranth.lib.memory.Memory", "amaranth pysim"]
     stubs = ["cycle driver (stimulus)", "list reference model"]
     search_space = "stack depths/layouts and read/peek/write/clear call histories with boundary and flush faults"
+    assumptions = ["fullness / emptiness are judged on the stack content at the beginning of the cycle; of the calls executed in "
+                   "one cycle `clear` is applied last"]
 
     def gen_config(self, rng, tier, idx):
         big = tier == "thorough"
